@@ -578,15 +578,29 @@ pub fn main(ctx: &Ctx) -> i32 {
                 return 2;
             }
         };
-        return if body["detail"]["universe"].as_str() == Some("U-BB4") { replay::<crate::uni::Bb4>(ctx, &body) } else { replay::<crate::uni::Kb4>(ctx, &body) };
+        return match body["detail"]["universe"].as_str().unwrap_or("") {
+            "U-BB4" => replay::<crate::uni::Bb4>(ctx, &body),
+            "U-BB5" => replay::<crate::uni::Bb5>(ctx, &body),
+            "U-KB5Q" => replay::<crate::uni::Kb5q>(ctx, &body),
+            "U-KB8" => replay::<crate::uni::Kb8>(ctx, &body),
+            "U-KB1" => replay::<crate::uni::Kb1>(ctx, &body),
+            "U-GL2" => replay::<crate::uni::Gl2>(ctx, &body),
+            _ => replay::<crate::uni::Kb4>(ctx, &body),
+        };
     }
     let runs: u64 = if prop == "C11" { ctx.tier.pick(3000, 60000) } else { ctx.tier.pick(64, 800) };
     let res = crate::core::pool::run_jobs(runs, |idx| {
         let mut out = RunOut::default();
-        if idx % 2 == 0 {
-            one_run::<crate::uni::Kb4>(ctx, &prop, idx, &mut out);
-        } else {
-            one_run::<crate::uni::Bb4>(ctx, &prop, idx, &mut out);
+        // degree-4 universes carry most runs; the other degrees / reductions of the ALU table
+        // (base field, binomial 2 / 5 / 8, quintic trinomial) share the rest
+        match idx % 12 {
+            0 | 2 | 4 | 10 => one_run::<crate::uni::Kb4>(ctx, &prop, idx, &mut out),
+            1 | 3 | 11 => one_run::<crate::uni::Bb4>(ctx, &prop, idx, &mut out),
+            5 => one_run::<crate::uni::Bb5>(ctx, &prop, idx, &mut out),
+            6 => one_run::<crate::uni::Kb5q>(ctx, &prop, idx, &mut out),
+            7 => one_run::<crate::uni::Kb8>(ctx, &prop, idx, &mut out),
+            8 => one_run::<crate::uni::Kb1>(ctx, &prop, idx, &mut out),
+            _ => one_run::<crate::uni::Gl2>(ctx, &prop, idx, &mut out),
         }
         let mut d = crate::core::prng::Digest::new();
         d.u64(out.evals);
@@ -609,9 +623,9 @@ pub fn main(ctx: &Ctx) -> i32 {
         total.merge(o);
     }
     let rule = if prop == "C11" {
-        "one run = one seeded primitive circuit (add, sub, mul, div, mul_add, bool checks, selects, connects; extension degree 4, BabyBear/KoalaBear; lanes in {1,2,3,4,8}; Horner packing factor K in {2..5} for the extra columns); the honest main matrices (captured from the real prover through hook H2) must satisfy every table constraint; then every cell of every active row and one padding row of the Const, Public and ALU tables is altered (+1, -1 or random), plus local re-solves and row swaps, and p3's DebugConstraintBuilder evaluates the table's AIR on the forged matrix; oracle: the row-relation evaluator over the field extension (relation fails and constraints vanish = violation; honest row failing constraints = violation). distinct = distinct (universe, fault kind, op kind, column class)."
+        "one run = one seeded primitive circuit (add, sub, mul, div, mul_add, bool checks, selects, connects, proper HornerAcc chains of 1..9 steps) in one of seven universes (KoalaBear/BabyBear binomial D4; BabyBear binomial D5; KoalaBear quintic trinomial D5; KoalaBear binomial D8; KoalaBear base field D1; Goldilocks binomial D2); lanes in {1,2,3,4,8}; Horner packing factor K in {2..5} (single-step, packed rows of every arity 2..K); the honest main matrices (captured from the real prover through hook H2) must satisfy every table constraint; then every cell of every active row and one padding row of the Const, Public and ALU tables (lane columns, packed-Horner intermediates, (a_t,c_t) step columns, b^2) is altered (+1, -1 or random), plus local re-solves, row swaps, Horner chains restarted from a forged accumulator and packed rows whose out is forged with the intermediates solved backwards, and p3's DebugConstraintBuilder evaluates the table's AIR on the forged matrix; oracle: the row-relation evaluator over the field extension, decoding rows from the table's preprocessed matrix (Horner step: out = acc*b + c - a with acc = lane-0 out of the row above, folded over the k steps of a packed row; intermediates and b^2 are free) (relation fails and constraints vanish = violation; honest row failing constraints = violation). distinct = distinct (universe, fault kind, op kind, column class)."
     } else {
-        "one run = one seeded primitive circuit + packing draw, honest run, matrices captured through hook H2; byzantine prover alters every cell of every active row and one padding row of every table (cell_flip), re-solves a row locally after altering an operand (cell_local_resolve), swaps rows, or substitutes a constant and propagates it; each forged trace is committed and proven by the real prover and checked by the commitment-binding verifier; ground truth (relations, constants, bus agreement) is computed per case; violation = accepted and ground truth invalid. distinct = distinct (universe, fault kind, op kind, column class)."
+        "one run = one seeded primitive circuit (incl. proper HornerAcc chains of 1..9 steps, most runs) + packing draw (lanes, Horner packing factor K in 2..5) in one of seven universes (KB/BB D4 most runs; BB binomial D5, KB quintic D5, KB D8, KB D1, Goldilocks D2), honest run, matrices captured through hook H2; byzantine prover alters every cell of every active row and one padding row of every table (cell_flip), re-solves a row locally after altering an operand (cell_local_resolve), swaps rows, restarts a Horner chain from a forged accumulator (the cell above the chain, whole chain recomputed, outputs propagated to their bus counterparts), forges the out of a packed Horner row with the intermediates solved backwards from a chosen slot (so that exactly one fold leg is broken), or substitutes a constant and propagates it; each forged trace is committed and proven by the real prover and checked by the commitment-binding verifier; ground truth (relations incl. Horner folds whose first accumulator is the circuit op's accumulator slot, constants, bus agreement; rows decoded from the ALU preprocessed matrix and matched against the circuit's ops) is computed per case; violation = accepted and ground truth invalid. distinct = distinct (universe, fault kind, op kind, column class)."
     };
     crate::core::report::finish(
         ctx,
@@ -623,12 +637,13 @@ pub fn main(ctx: &Ctx) -> i32 {
             exhaustive: true,
             assumptions: vec![
                 "exhaustive over single cells of the sampled circuits' active rows; circuits and packings are sampled".into(),
-                "ground truth decodes the primitive tables only; circuits here contain no Horner steps and no non-primitive tables (those are faulted in C06/C12)".into(),
+                "ground truth decodes the primitive tables only; circuits here contain no non-primitive tables (those are faulted in C06/C12)".into(),
+                "Horner chains are proper (start at the constant zero, consecutive, intermediates unused): other shapes do not prove honestly (C10 findings)".into(),
                 "release profile: p3's debug constraint checks are compiled out, so an invalid trace yields a proof".into(),
             ],
             components_real: vec!["CircuitRunner", "trace_to_matrix of every primitive table", "prove_all_tables (commit, quotient, FRI)", "verify_all_tables", "AluAir/ConstAir/PublicAir::eval via DebugConstraintBuilder (C11)"],
             components_stub: vec!["hook H2 overwrites the matrices before commitment (the fault)"],
-            not_covered: vec!["Poseidon / recompose table cells (C06, C12 fault their inputs/outputs instead)", "packed Horner rows", "D != 4"],
+            not_covered: vec!["Poseidon / recompose table cells (C06, C12 fault their inputs/outputs instead)", "binomial D6", "Goldilocks D5 / BabyBear D8"],
             extra: json!({}),
         },
     )
